@@ -22,10 +22,10 @@ def parse_family(focus, quick_n, thorough_n, maxlen=7, inputs_per=3):
 
 
 PROPS = {
-    'C01': dict(level='proof', theorem_modules=['C01', 'C09Lookahead', 'Accepted'], min_theorems=12, tags=['C01'], crash_counts=True,
+    'C01': dict(level='proof', theorem_modules=['C01', 'C09Lookahead', 'Accepted', 'BuildSet'], min_theorems=22, tags=['C01'], crash_counts=True,
                 gen=parse_family('C01', 1500, 40000), flavours=['c'],
                 rule='random grammars (1-5 nonterminals, nullable/recursive/ambiguous/error shapes) x sampled sentences, prefixes, mutations, random strings; every input parsed at lookahead 0,1,2 with random one_parse/cost and recovery on/off; non-trivial = distinct case text with at least one judged parse',
-                assumptions=COMMON_ASSUME + ['accepts_iff_sentence is proved for the level-0/1 model and accepts2_iff_sentence for the level-2 model, for every grammar readGrammar accepts (Props/Accepted.lean); recovery-on runs of non-sentences are judged by the recovery model']),
+                assumptions=COMMON_ASSUME + ['accepts_iff_sentence is proved for the level-0/1 model and accepts2_iff_sentence for the level-2 model, for every grammar readGrammar accepts (Props/Accepted.lean); recovery-on runs of non-sentences are judged by the recovery model; the set construction of build_new_set / expand_new_start_set / set_insert (start, derived and initial situations, cores shared by start situations) is modelled step for step at levels 0/1 (Model/BuildSet.lean) and proved to compute the abstract sets (buildPLC_eq_buildPL, acceptsC_iff_sentence); the tie compares the situations of every set with multiplicity, their order is only counted']),
     'C02': dict(level='proof', theorem_modules=['C02', 'Accepted', 'MakeParse'], min_theorems=8, tags=['C02'], crash_counts=True,
                 gen=parse_family('C02', 1500, 40000), flavours=['c'],
                 rule='random grammars with random translations (permuted, partial, nil-padded, pass-through, empty); sentences <= 7 tokens; one_parse=1 cost=0; tree compared with the enumerated translations of all derivations',
@@ -107,8 +107,8 @@ PROPS = {
                              'which blocks the longjmp unwinding leaks is not judged (leaks are reported as statistics only); partial: memory effects are runtime truth (ASan)',
                              'Lean: Model/Api.lean + apiStep_local (other objects unaffected); the judge applies it to histories with injected failures'],
                 technique='exhaustive single-fault enumeration over allocation indices, judged by the Lean API model'),
-    'C18': dict(level='exploration', theorem_modules=['C18'], min_theorems=8, tags=['C18'], crash_counts=True, runner=None, flavours=['c'],
-                rule='left-recursive list, E/T/F arithmetic and the 200-rule ANSI C grammar of test41.c on the tokens of test/test.i (the repo lexer ansic.l), input lengths 1k..16k/32k (thorough: ..512k) doubling, lookahead 0,1,2: bytes requested from the allocator during yaep_parse, hash searches, unique situations / set cores / distance vectors / sets / triples must grow by at most a calibrated factor per doubling (bytes 2.6, searches 3.5, ...), at most 4 hash collisions per search, never more unique sets than tokens, goto-cache hits do not shrink; non-trivial = a (family, lookahead, n -> 2n) pair with both measurements',
+    'C18': dict(level='exploration', theorem_modules=['C18', 'BuildSet'], min_theorems=18, tags=['C18'], crash_counts=True, runner=None, flavours=['c'],
+                rule='left-recursive list, E/T/F arithmetic and the 200-rule ANSI C grammar of test41.c on the tokens of test/test.i (the repo lexer ansic.l), input lengths 1k..16k/32k (thorough: ..512k) doubling, lookahead 0,1,2: bytes requested from the allocator during yaep_parse, hash searches, unique situations / set cores / distance vectors / sets / triples must grow by at most a calibrated factor per doubling (bytes 2.6, searches 3.5, ...), at most 4 hash collisions per search, never more unique sets than tokens, goto-cache hits do not shrink; the same counters after make_parse in the all-parses and cost configurations; on random grammars and short inputs the numbers of unique set cores, distance vectors and sets equal those of the step-for-step Lean model of set_insert (identical sets are found again, not rebuilt); non-trivial = a (family, lookahead, n -> 2n) pair with both measurements',
                 assumptions=['measured, not proved: hash distribution, allocator behaviour and wall time are outside any model; thresholds calibrated on the unchanged tree with head-room',
                              'hash collisions are judged per search (<= 4 collisions per search + 1000): their growth at small sizes is table warm-up, not superlinear work'],
                 technique='machine-independent work counters (guarded hook + allocator wrapper) at doubling input sizes (partial: runtime behaviour)'),
@@ -216,7 +216,7 @@ def run_c17(pid, P, tier, seed):
                     vo = ops[:i - 1] + ['failat 0 %d' % k, ops[i - 1]]
                     if kind != 'create' or True:
                         vo += ['err 0'] if kind != 'create' else []
-                    if k % 3 == 2 and kind == 'parse':
+                    if (k % 3 == 2 or os.environ.get('VERIF_C17_REPARSE')) and kind == 'parse':
                         # the object stays defined after a failed parse: parse again, twice
                         vo += [ops[i - 1], ops[i - 1], 'err 0']
                     elif k % 2 == 0 and kind != 'create':
@@ -354,6 +354,16 @@ def run_c18(pid, P, tier, seed):
                 if fam == 'ansic' and byn[b].get('gotos', 0) < byn[a].get('gotos', 0):
                     failures.append(dict(prop=pid, kind='K', case='P-%s-%d-%d' % (fam, b, la), op='5', detail='[%s] goto cache hits shrink with longer input: %s -> %s' % (flavour, byn[a].get('gotos'), byn[b].get('gotos')), context=[], replay_lines=[]))
         if not cov['samples']: cov['samples'] = [[l[:200] for l in cases[0]]]
+        # identical sets are found again rather than rebuilt: the numbers of unique cores, distance
+        # vectors and sets equal those of the Lean model of set_insert (Model/BuildSet.lean)
+        pc = gen.gen_parse_cases(seed + 11, 3000 if tier == 'thorough' else 300, 'C01')
+        res = pipeline.run_cases(pc, flavour)
+        cov['evaluations'] += len(pc)
+        for v in res.verdicts:
+            if v.prop != 'C18': continue
+            vcount['unique cores/vectors/sets = model %s' % ('ok' if v.ok else 'bad')] += 1
+            if not v.ok:
+                failures.append(dict(prop=pid, kind='D', case=v.case, op=v.op, detail='[%s] %s' % (flavour, v.detail), context=[], replay_lines=res.obs.get(v.case, [])))
     cov['verdicts'] = dict(vcount)
     cov['flavours'] = P.get('flavours', ['c'])
     return dict(coverage=cov, failures=failures, search_note='')
@@ -424,6 +434,7 @@ def case_features(stats):
                 if k == 'derivations' and v.isdigit():
                     feats['derivations=%s' % ('1' if v == '1' else '2-4' if int(v) <= 4 else '5+')] += 1
         if s.startswith('trees skipped'): feats['trees-skipped'] += 1
+        if s.startswith('setorder'): feats['step-model-' + s.replace(' ', '-')] += 1
         if s.startswith('recovery model gave up'): feats['recovery-gave-up'] += 1
     return feats
 
